@@ -1216,7 +1216,9 @@ class TokenizerCore:
             else:
                 if self._chars(delim_size) == delimiter:
                     if delim_size > 1:
-                        self._advance(delim_size - 1)
+                        # single steps: a heredoc closing tag may contain a line break
+                        for _ in range(delim_size - 1):
+                            self._advance()
                     break
 
                 if self._end:
